@@ -136,6 +136,8 @@ type c01custom struct {
 
 var c01customs = []c01custom{
 	{-8, "neg8", slog.MaxLevel, false},
+	{-3, "neg3info", slog.InfoLevel, false},
+	{-5, "neg5err", slog.ErrorLevel, true},
 	{slog.MaxLevel, "atmax", slog.MaxLevel, false},
 	{18, "notice18", slog.InfoLevel, false},
 	{19, "swell19", slog.ErrorLevel, true},
